@@ -69,6 +69,7 @@ type Contract struct {
 	ParamName []string // optional override of parameter names (extern)
 	Uses      []string // lemmas (proved elsewhere) assumed while verifying this function
 	Opaque2   []string // spec functions whose bodies are hidden while verifying this function
+	Atomic2   []string // "atomic mu": all critical sections of lock mu in this function form one atomic step
 	Holds     []string // lock fields of the receiver the caller holds ("holds mu" / "holds mu:r")
 	Unshared  bool     // object under construction: lockset checks off
 	GhostSet  []Clause // "ghost_assign x.f = expr": ghost assignments performed at every normal exit
@@ -112,6 +113,7 @@ type LockDecl struct {
 	Protects  []string
 	Invariant string
 	RWrites   []string // fields that may be written under the read lock (declared, reported in evidence)
+	Serializes []string // other lock fields of the same object whose critical sections this lock groups into one atomic step
 	Pkg       string
 	File      string
 	Line      int
@@ -290,6 +292,13 @@ func (db *SpecDB) LoadFile(path, pkgPath string) error {
 					j++
 				}
 			}
+			if j < len(fs) && fs[j] == "serializes" {
+				j++
+				for j < len(fs) && fs[j] != "invariant" && fs[j] != "protects" && fs[j] != "rwrites" {
+					ld.Serializes = append(ld.Serializes, strings.Trim(fs[j], ","))
+					j++
+				}
+			}
 			if j < len(fs) && fs[j] == "rwrites" {
 				j++
 				for j < len(fs) && fs[j] != "invariant" {
@@ -371,6 +380,7 @@ func (db *SpecDB) LoadFile(path, pkgPath string) error {
 			cur.Inline = true
 		case "atomic":
 			cur.Atomic = true
+			cur.Atomic2 = append(cur.Atomic2, strings.Fields(rest)...)
 		case "note":
 			cur.Notes = append(cur.Notes, rest)
 		case "params":
